@@ -42,14 +42,14 @@ def attribute(ctx, label, job):
                 s += sw[i - 1] + alpha[w[i]]
             srcs.append(s)
     jobs = [{"op": "front_many", "srcs": srcs[i:i + 200]} for i in range(0, len(srcs), 200)]
-    res = ctx.pool.map(jobs, batch=1, timeout=300)
+    res = ctx.pool.map(jobs, batch=1, timeout=60)
     for j, r in zip(jobs, res):
         if "count" in r:
             ctx.outcome(f"{label}:parse_ok", r["parse_ok"])
             for f in r["failures"]:
                 ctx.violation(f"panic in {f['stage']}: {norm_panic(f['panic'])}", {"src": j["srcs"][f["i"]], "panic": f["panic"], "space": label}, cli_cmd=cli_for(f["stage"]))
             continue
-        singles = ctx.pool.map([{"op": "front_many", "srcs": [x]} for x in j["srcs"]], batch=1, timeout=30)
+        singles = ctx.pool.map([{"op": "front_many", "srcs": [x]} for x in j["srcs"]], batch=1, timeout=10)
         for x, r1 in zip(j["srcs"], singles):
             if "count" not in r1:
                 kind = "does not end" if "timeout" in r1 else f"process dies ({r1.get('crash')})"
@@ -132,7 +132,7 @@ def part_ab(ctx, only):
     ctx.bound("char_string_length", la)
     for n in range(1, la + 1):
         jobs = enum_jobs(SIGMA_C, n, [""])
-        res = ctx.pool.map(jobs, batch=1, timeout=900)
+        res = ctx.pool.map(jobs, batch=1, timeout=120 if ctx.quick else 1200)
         total += collect(ctx, f"chars^{n}", jobs, res)
     # (b) token sequences
     lb = 3 if ctx.quick else 4
@@ -140,7 +140,7 @@ def part_ab(ctx, only):
     for n in range(1, lb + 1):
         seps = [" ", "\n"] if n <= 3 else [" "]
         jobs = enum_jobs(SIGMA_T, n, seps)
-        res = ctx.pool.map(jobs, batch=1, timeout=3600)
+        res = ctx.pool.map(jobs, batch=1, timeout=120 if ctx.quick else 3600)
         total += collect(ctx, f"tokens^{n}", jobs, res)
     jobs = enum_jobs(SIGMA_T, 2, [""])
     res = ctx.pool.map(jobs, batch=1, timeout=600)
@@ -181,12 +181,12 @@ def part_c(ctx):
         for i in range(0, len(variants), 300):
             jobs.append({"op": "front_many", "srcs": variants[i:i + 300]})
             meta.append(name)
-    res = ctx.pool.map(jobs, batch=1, timeout=900)
+    res = ctx.pool.map(jobs, batch=1, timeout=120)
     nedit = 0
     for job, name, r in zip(jobs, meta, res):
         if "count" not in r:
             # attribute singly
-            singles = ctx.pool.map([{"op": "front_many", "srcs": [s]} for s in job["srcs"]], batch=1, timeout=60)
+            singles = ctx.pool.map([{"op": "front_many", "srcs": [s]} for s in job["srcs"]], batch=1, timeout=10)
             for s, r1 in zip(job["srcs"], singles):
                 nedit += 1
                 if "count" not in r1:
